@@ -584,4 +584,86 @@ theorem stepY_gap_complete {cfg : Cfg} {n : Net} {v : View} (h : RInv cfg n v) (
       exact ⟨hs1, hb, hgy, hg, hst, hlx, hq, hsx, ⟨none, 0, rfl⟩, trivial, trivial, trivial, harr, Int.le_refl _⟩)
   exact ⟨n', _, inc, _, hn', hinv', rfl, fun j _ => rfl, .inl ⟨rfl, rfl, rfl⟩⟩
 
+/-- Phase `pass`, the poll at which the successor has the complete token in its buffer: it accepts it (from
+`CheckTokenPass` if it still supervised its own earlier pass, from `ActiveIdle` otherwise); the roles swap. -/
+theorem stepY_pass_complete {cfg : Cfg} {n : Net} {v : View} (h : RInv cfg n v) (hok : cfg.Ok)
+    (hph : v.ph = .pass) (now : Int) (e : EvOk cfg n v (oth v.x) now)
+    (hfull : cvis cfg v.tr now = v.tr.bytes.length) : StepOut cfg n v (oth v.x) now := by
+  have hP := h.ph
+  unfold PhaseOk at hP
+  rw [hph] at hP
+  obtain ⟨hs1, hb, hst, hlx, hq, hY⟩ := hP
+  obtain ⟨hrx, hpb, hlt, hyl, hlc, hmode⟩ := hY
+  have hown := e.own
+  have htl := e.tl
+  have hgapy := e.gapY
+  have htlt := h.tlt
+  have hne := oth_ne v.x h.x2
+  have hoo := oth_oth v.x h.x2
+  have hmar := hok.margin
+  have hc2 := cfg.ce2 hok.rate
+  have hlen : v.tr.bytes.length = 3 := by rw [hb]; rfl
+  obtain ⟨inc, hd, hcat⟩ := h.bus.deliver_recv hok.rate (oth v.x) (oth_lt _) now (by rw [hs1]; exact hne) (Int.le_of_lt e.own)
+  have hphy : n.bus.transmitting (oth v.x) now = false :=
+    Bus.transmitting_old n.bus (oth v.x) now v.old v.tr h.bus.txs (by rw [hs1]; exact hne) h.bus.oldEnd
+      (Int.le_trans h.tlt e.tl)
+  have hlyn : v.ly < now := by rcases hlc with h1 | h1 <;> omega
+  have hrx' : v.sy.rx ++ inc = sendToken (UInt8.ofNat v.ay) (UInt8.ofNat v.ax) := by
+    rw [hrx, hcat, hfull, List.take_length, hb]; rfl
+  have hax := h.okx.lta
+  have hay := h.oky.lta
+  have hda : (UInt8.ofNat v.ay).toNat = v.sy.s.p.address := by rw [u8_toNat _ (by omega), h.oky.addr]
+  have hsa : (UInt8.ofNat v.ax).toNat ≠ v.sy.s.p.address := by
+    rw [u8_toNat _ (by omega), h.oky.addr]; exact h.okx.ne
+  have hsrc : (UInt8.ofNat v.ax).toNat = v.sy.s.ring.ps := by rw [u8_toNat _ (by omega), h.oky.ps]
+  have hlate : ∀ l, v.sy.s.lastBusActivity = some l → l < now := by
+    intro l hl; rw [hyl] at hl; cases hl; exact hlyn
+  have hnew : v.sy.s.pendingBytes < (sendToken (UInt8.ofNat v.ay) (UInt8.ofNat v.ax)).length := by
+    rw [hpb]; show _ < 3; omega
+  have harr : v.tr.start + ((cfg.ce 2 : Nat) : Int) ≤ now := by
+    have := (cvis_spec cfg v.tr now 2 (by rw [hlen]; decide)).1 (by rw [hfull, hlen]; decide)
+    exact this
+  have hseenY : n.bus.seen.getD (oth v.x) 0 < v.tr.start + ((cfg.ce 2 : Nat) : Int) := by
+    have := vis_lt_full _ (ce_monoI cfg) v.tr.bytes.length v.tr.start (n.bus.seen.getD (oth v.x) 0)
+      (by rw [hlen]; decide) hlt
+    rw [hlen] at this
+    exact this
+  -- the accepting poll, in either mode
+  have hpoll : v.sy.s.poll [] now false (sendToken (UInt8.ofNat v.ay) (UInt8.ofNat v.ax)) = .ok {
+      s := { v.sy.s with st := .useToken ⟨now, none⟩ false, ring := v.sy.s.ring, pendingBytes := 0,
+                         lastBusActivity := some now },
+      apps := [], rx := [] } := by
+    cases hi : v.idle with
+    | false =>
+      rw [hi] at hmode
+      simp only [Bool.false_eq_true, if_false] at hmode
+      exact check_poll_accepts v.sy.s [] now _ [] .first _ _ true h.oky.son hmode.1 hlate (.inl hnew)
+        (receiveAll_token _ _) hda hsa hsrc
+    | true =>
+      rw [hi] at hmode
+      simp only [if_true] at hmode
+      obtain ⟨⟨np, coll, hyst⟩, -⟩ := hmode
+      have htto := h.oky.tto
+      have := idle_poll_accepts v.sy.s [] now _ [] np coll _ _ true h.oky.son hyst hlate (by omega) (.inl hnew)
+        (receiveAll_token _ _) hda hsa (.inl hsrc)
+      rw [this]
+      unfold acceptRing
+      rw [if_pos hsrc]
+  obtain ⟨n', hn', hinv'⟩ := rinv_swap_y h now e.tl (Int.le_of_lt e.own) inc _ (v.tr.start + (cfg.b33 : Nat)) hd
+    (by rw [hphy, hrx']; exact hpoll) rfl rfl rfl h.oky.son rfl rfl
+    (by
+      unfold PhaseOk View.swap upSt
+      simp only
+      refine ⟨by rw [hoo]; exact hs1, hb, ⟨_, _, rfl⟩, trivial, hst, hlx, h.pbx, h.rxx, trivial, trivial, harr,
+        Int.le_refl _, by omega, by omega⟩)
+  refine ⟨n', _, inc, _, hn', hinv', rfl, ?_, .inl ⟨rfl, rfl, ?_⟩⟩
+  · intro j hj
+    unfold View.adr View.swap
+    simp only
+    rcases two_cases v.x j h.x2 hj with rfl | rfl
+    · rw [if_neg hne, if_pos rfl]
+    · rw [if_pos rfl, if_neg (Ne.symm hne)]
+  · unfold View.nextTx View.swap
+    simp only [hph]
+
 end PV
